@@ -115,6 +115,12 @@ fn sibling_of(p: &Pos, rng: &mut Rng) -> Option<Pos> {
 }
 
 fn new_game(rng: &mut Rng) -> GameState {
+    if rng.chance(1, 30) {
+        // a very long game: GUIs send the whole move list every time
+        let n = rng.range(300, 1400) as usize;
+        let (ps, ms) = gen::long_game(&Pos::start(), rng, n);
+        return GameState { head: "position startpos".into(), moves: ms.iter().map(|m| m.uci()).collect(), cur: ps.last().unwrap().clone() };
+    }
     match rng.below(10) {
         0..=3 => {
             let n = rng.range(0, 60) as usize;
@@ -744,7 +750,7 @@ pub fn run_c13(ctx: &Ctx) -> i32 {
         level: "exploration",
         rule: "cases: (a) a depth-limited script (2..7 position/go depth 3..6 commands on middlegames) run in N separate processes of the real binary — each draws its own random hash keys — must give byte-identical transcripts once the time and nps fields are removed; (b) in-process, K fresh searchers (K key sets) must agree on (score, move, node count) for each (position, depth); (c) the transcript of a script after 'prefix; ucinewgame' (prefix: searches, time-limited searches, long position histories, games from the start position that repeat positions two or three times; the script often starts with a bare go, which searches the start position) must equal its transcript in a fresh process. Distinct by script / (position, depth); all non-trivial (every case compares at least two executions)",
         assumptions: vec!["key sets not drawn in this run are not covered".into(), "only depth-limited searches are compared (time-limited ones legitimately depend on the machine)".into()],
-        required: if ctx.replay.is_some() { vec![] } else { vec!["scripts_compared_across_processes", "process_pairs_compared", "key_set_groups_compared", "ucinewgame_scripts_compared", "ucinewgame_scripts_starting_with_bare_go"] },
+        required: if ctx.replay.is_some() { vec![] } else { vec!["scripts_compared_across_processes", "process_pairs_compared", "key_set_groups_compared", "ucinewgame_scripts_compared", "ucinewgame_scripts_starting_with_bare_go", "ucinewgame_scripts_resuming_the_previous_game_line", "soak_scripts_compared"] },
         exhaustive: false,
         extra: vec![],
     };
@@ -811,6 +817,46 @@ pub fn run_c13(ctx: &Ctx) -> i32 {
                 }
             }
         }
+        // (a') soak: one long game searched move after move in ONE process without ucinewgame, so the
+        // tables fill up (a size cap or an eviction policy that depends on the hash keys shows in the
+        // node counts), compared across processes
+        let soaks = if ctx.quick() { if w < 4 { 1 } else { 0 } } else if w < 12 { 1 } else { 0 };
+        for _ in 0..soaks {
+            let plies = if ctx.quick() { 80 } else { 130 };
+            let (ps, ms) = gen::playout(&Pos::start(), &mut rng, 160);
+            let mut script = vec![];
+            let from = rng.range(4, 12) as usize;
+            for i in (from..ms.len().min(from + plies)).step_by(1) {
+                if ps[i].legal_moves().is_empty() {
+                    break;
+                }
+                let mv: Vec<String> = ms[..i].iter().map(|m| m.uci()).collect();
+                script.push(format!("position startpos moves {}", mv.join(" ")));
+                let men = ps[i].piece_count();
+                script.push(format!("go depth {}", if ctx.quick() { if men <= 22 { 6 } else { 5 } } else if men <= 10 { 7 } else if men <= 20 { 6 } else { 5 }));
+            }
+            if script.is_empty() {
+                continue;
+            }
+            let case = J::obj(vec![("kind", J::s("processes")), ("commands", J::arr_s(script.clone())), ("compare_from", J::i(0))]);
+            st.case(hash64(&script), true);
+            match (transcript(ctx, &script, 0), transcript(ctx, &script, 0)) {
+                (Ok(a), Ok(b)) => {
+                    st.bump("soak_scripts_compared");
+                    st.add("soak_searches_in_one_process", (script.len() / 2) as u64);
+                    let nodes: u64 = a.iter().filter(|l| l.starts_with("info")).filter_map(|l| { let t: Vec<&str> = l.split_whitespace().collect(); t.iter().position(|x| *x == "nodes").and_then(|i| t.get(i + 1)).and_then(|x| x.parse::<u64>().ok()) }).max().unwrap_or(0);
+                    st.maxi("max_nodes_of_one_soak_search", nodes);
+                    if a != b {
+                        st.violation(
+                            format!("C13:soak:{}", hash64(&script)),
+                            format!("a game searched move after move in one process ({} searches) gives different output in two processes: {}", script.len() / 2, first_difference(&a, &b)),
+                            case,
+                        );
+                    }
+                }
+                (Err(e), _) | (_, Err(e)) => st.inconclusive.push(format!("C13 soak script failed: {}", e)),
+            }
+        }
         // (c) ucinewgame
         for k in 0..(n_new / ctx.workers as u64 + 1) {
             if k >= 1 && ctx.past(0.75) {
@@ -821,6 +867,49 @@ pub fn run_c13(ctx: &Ctx) -> i32 {
             if rng.chance(1, 3) && !suffix[0].starts_with("go") {
                 // start with a bare go (ucinewgame has reset the board to the start position)
                 suffix.insert(0, format!("go depth {}", rng.range(3, 5)));
+            } else if rng.chance(1, 2) {
+                // the new game begins like the old one: the same position command as before
+                // ucinewgame, the same one extended by a few moves, or cut short (GUIs replay the same
+                // opening lines game after game)
+                if let Some(prev) = prefix.iter().rev().find(|c| c.starts_with("position")) {
+                    if let Some((p, _)) = reference_of_command(prev) {
+                        let mut cmd = prev.clone();
+                        let mut cur = p;
+                        match rng.below(3) {
+                            0 => {}
+                            1 => {
+                                for i in 0..rng.range(1, 4) {
+                                    let l = cur.legal_moves();
+                                    if l.is_empty() {
+                                        break;
+                                    }
+                                    let m = *rng.pick(&l);
+                                    if i == 0 && !cmd.contains(" moves ") {
+                                        cmd.push_str(" moves");
+                                    }
+                                    cmd.push(' ');
+                                    cmd.push_str(&m.uci());
+                                    cur = cur.make(&m);
+                                }
+                            }
+                            _ => {
+                                if let Some(i) = cmd.find(" moves ") {
+                                    let toks: Vec<&str> = cmd[i + 7..].split_whitespace().collect();
+                                    let keep = rng.below(toks.len() as u64 + 1) as usize;
+                                    cmd = if keep == 0 { cmd[..i].to_string() } else { format!("{} moves {}", &cmd[..i], toks[..keep].join(" ")) };
+                                    if let Some((q, _)) = reference_of_command(&cmd) {
+                                        cur = q;
+                                    }
+                                }
+                            }
+                        }
+                        if !cur.legal_moves().is_empty() {
+                            let d = if cur.piece_count() <= 12 { rng.range(3, 5) } else { rng.range(3, 4) };
+                            suffix = vec![cmd, format!("go depth {}", d)];
+                            st.bump("ucinewgame_scripts_resuming_the_previous_game_line");
+                        }
+                    }
+                }
             }
             let mut full = prefix.clone();
             full.push("ucinewgame".into());
